@@ -17,9 +17,7 @@ def handle : List String → Option String
       let b ← bufOfHex hex
       let o ← off.toNat?
       let m ← mx.toNat?
-      pure (showPy (fun r => match r with
-        | .value v s => s!"{v} {s}"
-        | .errObject => "errobj") (decodeVarintRev b o m))
+      pure (showPy (fun (v, s) => s!"{v} {s}") (decodeVarintRev b o m))
   | ["serial.size", st] => do
       let s ← st.toInt?
       pure (showPy toString (getContentSize s))
